@@ -15,6 +15,10 @@ HOT = [
     "script", "SCRIPT", "style", "!--", "-->", "]]>", "\x00", "\x85", "\u2028", "\U0001F600", "\u0301", "a", "x",
     "=", "&amp;", "&lt;", "&#", "&#x", "</", "<!", "<?", "\\", "\f", "\x0b", "\xa0", "\xe9", "</b>", "<b>", "&apos;",
     "&quot;", "&#10;", "&#13;", "\r\n",
+    # C1 controls (numeric references to them decode differently), characters that NFC / NFKC / case folding would
+    # change or merge, a combining overlay that composes with < and >, exotic line breaks
+    "\x80", "\x9f", "\u212b", "\u2126", "\ufb01", "\uff21", "e\u0301", "\u0338", "<\u0338", "\u037e", "\u00df", "\u0130",
+    "\x0b", "\x1c", "\x1d", "\u2029",
 ]
 
 scalar_chars = st.characters(exclude_categories=["Cs"])
@@ -40,9 +44,14 @@ def mixed_text(max_parts: int = 6):
     )
 
 
+def long_text(min_len: int = 64, max_len: int = 700):
+    """texts long enough to cross plausible size thresholds (caches, fast paths, line wrapping)"""
+    return st.builds(lambda s, n: ((s or "<&>") * (n // max(len(s or "<&>"), 1) + 1))[:n], mixed_text(4), st.integers(min_len, max_len))
+
+
 def any_text():
-    """Full Unicode, metacharacter-dense."""
-    return st.one_of(hot_text(), uni_text(), mixed_text())
+    """Full Unicode, metacharacter-dense; about one in twelve is long (64-700 characters)."""
+    return st.one_of(hot_text(), uni_text(), mixed_text(), hot_text(), uni_text(), mixed_text(), hot_text(), uni_text(), mixed_text(), hot_text(), mixed_text(), long_text())
 
 
 def safe_text(min_size: int = 0, max_size: int = 6):
@@ -66,6 +75,11 @@ RAWISH_NAMES = ["styled-text", "style-guide", "styles", "script-runner", "script
 CUSTOM_NAME = st.builds(
     lambda a, b: a + b, st.sampled_from(_ALPHA), st.text(alphabet=_ALPHA + "0123456789._:-", max_size=12)
 )
+
+
+# element names with special treatment somewhere in HTML or in pretty-printers (ordinary elements for this library)
+SPECIAL_NAMES = ["pre", "textarea", "listing", "table", "thead", "tbody", "tr", "td", "select", "option", "optgroup", "datalist", "title", "a", "svg",
+                 "template", "noscript", "iframe", "button", "label", "p", "li", "dd", "dt", "option", "foreignObject", "clipPath", "tspan", "use"]
 
 
 def catalogue_names() -> list[str]:
